@@ -62,7 +62,12 @@ type Case struct {
 	// call that is judged, and for textual destinations two more Consume calls follow before the destination is read
 	// again: an instance is a value built once from its options, earlier and later calls must not show.
 	Used bool `json:"used,omitempty"`
+	// SrcFail (produce, io.WriterTo source): 0 the source is sound; k > 0: its WriteTo reports an error after it has
+	// written k-1 bytes (or all of its text, if that is shorter). A failing source is an error, never a shorter table. (r6)
+	SrcFail int `json:"src_fail,omitempty"`
 }
+
+var errSourceFailed = errors.New("scripted failure of the io.WriterTo source")
 
 // Kinds ---------------------------------------------------------------------------------------------
 
@@ -169,11 +174,21 @@ func (b binMarshaler) MarshalBinary() ([]byte, error) { return []byte(b), nil }
 type writerTo struct {
 	data  string
 	chunk int
+	fail  int // see Case.SrcFail
 }
 
-func (w writerTo) WriteTo(wr io.Writer) (int64, error) {
-	var total int64
+func (w writerTo) WriteTo(wr io.Writer) (total int64, err error) {
 	rest := w.data
+	if w.fail > 0 {
+		if w.fail-1 < len(rest) {
+			rest = rest[:w.fail-1]
+		}
+		defer func() {
+			if err == nil {
+				err = errSourceFailed
+			}
+		}()
+	}
 	for len(rest) > 0 {
 		n := len(rest)
 		if w.chunk > 0 && n > w.chunk {
@@ -709,7 +724,7 @@ func checkProduce(c Case, kind int) ([]byte, *kit.Violation) {
 			data = onlyReader{c.newStream(in)}
 		}
 	case kFrom:
-		data = writerTo{data: in, chunk: c.Chunk}
+		data = writerTo{data: in, chunk: c.Chunk, fail: c.SrcFail}
 	case kBinary:
 		data = binMarshaler(in)
 	case kTable:
@@ -796,6 +811,12 @@ func checkProduce(c Case, kind int) ([]byte, *kit.Violation) {
 	}
 
 	delivered := func() string { return fmt.Sprintf("the text %q", snk.buf.Bytes()) }
+	if kind == kFrom && c.SrcFail > 0 {
+		if err == nil {
+			return nil, kit.Failf("%s: SOURCE-FAILURE-AS-SUCCESS: the io.WriterTo source reported an error after %d of its %d bytes; Produce returned success and delivered %s", what, minInt(c.SrcFail-1, len(in)), len(in), delivered())
+		}
+		return nil, nil
+	}
 	// io.WriterTo: the parser's error and the broken-pipe error of the feeding side race inside the codec, either
 	// is "an error"
 	if done, v := judgeError(what, kind == kFrom, eff, want, true, o, err, delivered); done {
@@ -844,4 +865,11 @@ func checkAgree(c Case) *kit.Violation {
 		}
 	}
 	return nil
+}
+
+func minInt(a, b int) int {
+	if a < b {
+		return a
+	}
+	return b
 }
